@@ -1048,9 +1048,14 @@ class IMAPSubprocessInterface:
         """
         try:
             while True:
-                if self.reader.at_eof():
+                # NOTE: We relay whatever has arrived, as it arrives. The data
+                #       is not ours to frame: a literal in a response can have
+                #       a run without any CRLF that is longer than the stream
+                #       reader's limit.
+                #
+                msg = await self.reader.read(65536)
+                if not msg:
                     break
-                msg = await self.reader.readuntil(b"\r\n")
                 await self.imap_client.push(msg)
         except (OSError, asyncio.IncompleteReadError, ConnectionResetError):
             pass
